@@ -243,6 +243,8 @@ RULES = [("components", rule_components), ("dependence", rule_dependence), ("inj
 # two different positions can only be told apart by their keys if the key the board carries IS the key of its position:
 # the incremental-update pairing rules of C04 are decided here too (a stale or stray word makes distinct positions share a key)
 RULES += engine.premise_rules("c04", ["writers", "piece-pair", "turn-pair", "ep-pair", "castle-pair", "castle-revert", "ctor"])
+# the colour index of a piece word is usize(Kind::get_color(piece))
+RULES += engine.premise_rules("c01", ["leaf-accessors"])
 
 
 def run(tier):
